@@ -45,8 +45,9 @@ package xlsx
 //@   ensures outside: !(row >= 0 && row < len(s.Rows) && col >= 0 && col < len(s.Rows[row])) ==> isnil(c)
 
 // ---- C15: table-cell text cannot break a pipe table ----
+// (also C17: a line break left in a cell value would split the Markdown row, so later cells leave their column)
 //@ func escapeMarkdown results (res)
-//@   property C15
+//@   property C15, C17
 //@   ensures cell_safe: forall k int :: {res[k]} 0 <= k && k < len(res) ==> res[k] != 10 && (res[k] == '|' ==> k >= 1 && res[k-1] == 92)
 
 //@ func (ParsedTable) ToMarkdown
